@@ -135,6 +135,37 @@ def enum_from_tangent2(tier, seed):
             yield ([i + 100 for i in sub], l)
 
 
+def enum_incidence_error(tier, seed):
+    g = grid(1)
+    for sub in itertools.combinations(range(9), 4):
+        pts = [g[i] for i in sub]
+        if general(pts):
+            yield (sub,)
+
+
+@family("C13", "from_tangent_point_on_tangent", enum_incidence_error)
+def case_incidence_error(ctx, cfg):
+    import geometer as G
+    from geometer.exceptions import IncidenceError
+
+    (sub,) = cfg
+    g = grid(1)
+    pts = [g[i] for i in sub]
+    P = [G.Point(np.array(p, dtype=float)) for p in pts]
+    for k in range(4):
+        # a tangent through the k-th point (and through no other): documented to raise IncidenceError
+        for l in lattice(3, 2):
+            on = [sum(a * b for a, b in zip(l, p)) == 0 for p in pts]
+            if on[k] and sum(on) == 1:
+                ctx.state((tuple(sub), k, tuple(l)))
+                r, e = ctx.call(G.Conic.from_tangent, G.Line(np.array(l, dtype=float)), *P)
+                ctx.trace()
+                if not isinstance(e, IncidenceError):
+                    ctx.fail(f"from_tangent:point-on-tangent:{'no-raise' if e is None else type(e).__name__}", "from_tangent", {"points": pts, "tangent": l, "point_on_tangent": k}, "IncidenceError", e if e is not None else r.array)
+                    return
+                break
+
+
 @family("C13", "from_tangent_axes", enum_from_tangent2)
 def case_from_tangent2(ctx, cfg):
     return case_from_tangent(ctx, cfg)
@@ -286,6 +317,13 @@ def case_round(ctx, cfg):
                 if e is not None or not np.array_equal(np.asarray(got), exact):
                     ctx.fail("circle:contains", "contains", inputs, "exact locus", e if e is not None else "mismatch")
                     return
+                # every circle passes through the circular points I = (-i, 1, 0) and J = (i, 1, 0); no other point at infinity
+                for v, want_on in (((-1j, 1, 0), True), ((1j, 1, 0), True), ((1, 0, 0), False), ((1, 1, 0), False)):
+                    got1, e = ctx.call(ci.contains, G.Point(np.array(v, dtype=complex)))
+                    ctx.trace()
+                    if e is not None or bool(got1) != want_on:
+                        ctx.fail("circle:contains:point-at-infinity", "contains", {**inputs, "point": [str(x) for x in v]}, want_on, e if e is not None else bool(got1))
+                        return
                 props = {"radius": r, "area": math.pi * r * r}
                 for nm, wv in props.items():
                     v, e = ctx.call(lambda: getattr(ci, nm))
